@@ -153,26 +153,32 @@ Proof. apply wsum_step. Qed.
 Lemma hundred_R : @hundred R ROps = 100.
 Proof. unfold hundred. cbn. lra. Qed.
 
-Lemma evict_branch {A B} (g l c wl : R) (X : A) (Y : B) : wl <> 0 ->
-  (if sgtb c s0 then do d <- sdiv c wl; Ok (ssub g d, l, X, Y)
-   else do d <- sdiv (sabs c) wl; Ok (g, ssub l d, X, Y))
-  = Ok (g - gof c / wl, l - lof c / wl, X, Y).
+(** the sums are recomputed from the window on every update: the fold adds, change by change,
+    [gain_of d / wl] to the gains and [loss_of d / wl] to the losses *)
+Lemma rsi_sums_acc wl q : wl <> 0 -> forall prev g l,
+  @rsi_sums R ROps wl q prev g l
+  = Ok (g + @gains R ROps (cf prev q) / wl, l + @losses R ROps (cf prev q) / wl).
 Proof.
-  intros Hw. unfold gain_of, loss_of, sgtb. cbn [sltb s0 sabs ssub ROps].
-  destruct (Rltb 0 c); rewrite sdiv_R_ok by exact Hw; cbn [bind].
-  - replace (l - 0 / wl) with l by (unfold Rdiv; lra). reflexivity.
-  - replace (g - 0 / wl) with g by (unfold Rdiv; lra). reflexivity.
+  intros Hw. induction q as [|v r IH]; intros prev g l.
+  - cbn [rsi_sums changes_from]. unfold gains, losses. cbn [map]. unfold ssum. cbn [fold_left s0 ROps].
+    f_equal. f_equal; unfold Rdiv; lra.
+  - cbn [rsi_sums changes_from]. unfold gains, losses. rewrite !smap_cons.
+    unfold sgtb. cbn [sltb s0 sabs ssub sadd ROps].
+    destruct (gl_cases (v - prev)) as [(H & -> & ->)|(H & -> & ->)];
+      destruct (Rltb 0 (v - prev)) eqn:E;
+      try (apply Rltb_true in E); try (apply Rltb_false in E); try lra;
+      rewrite sdiv_R_ok by exact Hw; cbn [bind]; rewrite IH; unfold gains, losses; cbn [sadd ROps];
+      f_equal; f_equal; try (rewrite Rabs_left1 by exact H); field; exact Hw.
 Qed.
-Lemma push_branch (g l c wl : R) : wl <> 0 ->
-  (if sgtb c s0 then do d <- sdiv c wl; Ok (sadd g d, l)
-   else do d <- sdiv (sabs c) wl; Ok (g, sadd l d))
-  = Ok (g + gof c / wl, l + lof c / wl).
+(** ... so that, started from the value preceding the window, they are exactly [G/n] and [L/n] *)
+Lemma rsi_sums_window n h : (1 <= n)%nat ->
+  @rsi_sums R ROps (INR n) (lastn n h) (hd 0 (lastn (S n) h)) 0 0 = Ok (wG n h / INR n, wL n h / INR n).
 Proof.
-  intros Hw. unfold gain_of, loss_of, sgtb. cbn [sltb s0 sabs sadd ROps].
-  destruct (Rltb 0 c); rewrite sdiv_R_ok by exact Hw; cbn [bind].
-  - replace (l + 0 / wl) with l by (unfold Rdiv; lra). reflexivity.
-  - replace (g + 0 / wl) with g by (unfold Rdiv; lra). reflexivity.
+  intros Hn. assert (Hn0 : INR n <> 0) by (apply INR_pos_neq; lia).
+  rewrite rsi_sums_acc by exact Hn0. rewrite <- win_changes.
+  unfold win_gain, win_loss. f_equal. f_equal; lra.
 Qed.
+
 (** the output block of [rsi_step] on averages [G/n], [L/n] *)
 Lemma rsi_out_block (G L wl : R) : 0 <= G -> 0 <= L -> 0 < wl ->
   (if seqb (L / wl) s0 then Ok (sofdec 100 0)
@@ -195,92 +201,65 @@ Proof.
     rewrite sdiv_R_ok by lra. cbn [bind]. rewrite sdivd_R by lra. f_equal. field. lra.
 Qed.
 
+(** what the queue bookkeeping of both views does: after the step the queue is the new window and the
+    reference value is the value preceding it (the first value of the stream while nothing precedes) *)
+Lemma window_bookkeeping {A} n (h : list A) v (q : list A) (oref d : A) : (1 <= n)%nat ->
+  q = lastn n h -> (h <> [] -> oref = hd d (lastn (S n) h)) ->
+  exists q0,
+    (if Nat.leb n (length q)
+     then do '(old, q') <- pop_front q; Ok (old, q')
+     else Ok (match q with [] => v | _ :: _ => oref end, q))
+    = Ok (hd d (lastn (S n) (h ++ [v])), q0) /\ q0 ++ [v] = lastn n (h ++ [v]).
+Proof.
+  intros Hn Hq Href.
+  pose proof (evict_push_lastn n h v Hn) as Hev. pose proof (lastn_S_snoc n h v) as HS.
+  rewrite Hq. rewrite lastn_length in *.
+  destruct (Nat.leb_spec n (Nat.min n (length h))) as [E|E].
+  - assert (Elen : (n <= length h)%nat) by lia.
+    destruct (lastn_hd_tl n h Elen Hn) as [old Hold]. rewrite Hold in *.
+    cbn [pop_front bind tl hd app] in *.
+    exists (tl (lastn n h)). split; [|exact Hev]. rewrite HS. reflexivity.
+  - assert (Elen : (length h < n)%nat) by lia.
+    exists (lastn n h). split; [|exact Hev]. f_equal. f_equal.
+    rewrite HS. rewrite (lastn_all n h) by lia.
+    destruct h as [|x r]; [reflexivity|].
+    assert (Hne : x :: r <> []) by discriminate. rewrite (Href Hne).
+    rewrite (lastn_all (S n) (x :: r)) by lia. reflexivity.
+Qed.
+
+(** the state after history [h]: the queue is the window, [old_ref] the value preceding it, the output the
+    specification (the gain / loss fields hold the last computed sums and are never read) *)
 Definition rsi_inv (n : nat) (h : list R) (s : @rsi_st R) : Prop :=
   rsi_q s = lastn n h /\
   (h <> [] -> rsi_oldref s = hd 0 (lastn (S n) h) /\ rsi_lastval s = last h 0) /\
-  rsi_gain s = wG n h / INR n /\ rsi_loss s = wL n h / INR n /\
+  ((n <= length h)%nat -> rsi_gain s = wG n h / INR n /\ rsi_loss s = wL n h / INR n) /\
   rsi_out s = @spec_rsi R ROps n h.
 
 Lemma rsi_step_inv n h s v : (1 <= n)%nat -> rsi_inv n h s ->
   exists s', rsi_step n s v = Ok s' /\ rsi_inv n (h ++ [v]) s'.
 Proof.
-  intros Hn (Hq & Href & Hg & Hl & Ho).
-  assert (Hn0 : INR n <> 0) by (apply INR_pos_neq; lia).
+  intros Hn (Hq & Href & _ & Ho).
   assert (Hnpos : 0 < INR n) by (apply lt_0_INR; lia).
   unfold rsi_step.
-  assert (Heff : match rsi_q s with [] => (v, v) | _ :: _ => (rsi_oldref s, rsi_lastval s) end
-                 = (hd v (lastn (S n) h), last h v)).
-  { rewrite Hq. destruct h as [|x r].
-    - rewrite !lastn_nil. reflexivity.
-    - assert (Hne : x :: r <> []) by discriminate. destruct (Href Hne) as [-> ->].
-      pose proof (lastn_nonnil n (x :: r) Hn Hne) as Hw.
-      destruct (lastn n (x :: r)); [congruence|].
-      f_equal; [apply hd_default, lastn_nonnil; [lia | exact Hne] | apply last_default; exact Hne]. }
-  rewrite Heff. cbv beta iota. clear Heff.
-  pose proof (evict_push_lastn n h v Hn) as Hev.
-  pose proof (wG_step n h v Hn) as HG. pose proof (wL_step n h v Hn) as HL.
+  destruct (window_bookkeeping n h v (rsi_q s) (rsi_oldref s) 0 Hn Hq (fun H => proj1 (Href H)))
+    as (q0 & -> & Hq0).
+  cbn [bind]. cbv zeta. rewrite Hq0, lastn_length, app_length. cbn [length].
   pose proof (wG_nonneg n (h ++ [v])) as HG0. pose proof (wL_nonneg n (h ++ [v])) as HL0.
-  pose proof (lastn_S_snoc n h v) as HS.
-  assert (Hout : forall q, q = lastn n (h ++ [v]) ->
-     (if (length q <? n)%nat then rsi_out s else
-        Some (if seqb (wL n (h ++ [v])) s0 then @hundred R ROps
-              else sdivd (smul hundred (wG n (h ++ [v]))) (sadd (wG n (h ++ [v])) (wL n (h ++ [v])))))
-     = @spec_rsi R ROps n (h ++ [v])).
-  { intros q ->. unfold spec_rsi. rewrite lastn_length, app_length. cbn [length].
-    destruct (Nat.ltb_spec (Nat.min n (length h + 1)) n) as [H|H];
-      destruct (Nat.ltb_spec (length h + 1) n) as [H'|H']; try lia.
-    - rewrite Ho. unfold spec_rsi. destruct (Nat.ltb_spec (length h) n); [reflexivity | lia].
-    - reflexivity. }
-  rewrite Hq, lastn_length in *.
-  destruct (Nat.leb_spec n (Nat.min n (length h))) as [E|E].
-  - (* full window: evict *)
-    assert (Elen : (n <= length h)%nat) by lia.
-    destruct (Nat.leb_spec n (length h)) as [_|]; [|lia].
-    assert (Hne : h <> []) by (destruct h; cbn in Elen; [lia | discriminate]).
-    destruct (Href Hne) as [Hor Hlv].
-    rewrite (hd_default (lastn (S n) h) v 0) by (apply lastn_nonnil; [lia | exact Hne]).
-    destruct (lastn_hd_tl n h Elen Hn) as [old Hold]. rewrite Hold in *.
-    cbn [front bind tl hd] in *.
-    rewrite evict_branch by exact Hn0. cbn [bind].
-    rewrite push_branch by exact Hn0. cbn [bind].
-    rewrite Hg, Hl. cbn [ssub sofnat ROps].
-    replace (wG n h / INR n - gof (old - hd 0 (lastn (S n) h)) / INR n + gof (v - last h v) / INR n)
-      with (wG n (h ++ [v]) / INR n) by (rewrite HG; field; exact Hn0).
-    replace (wL n h / INR n - lof (old - hd 0 (lastn (S n) h)) / INR n + lof (v - last h v) / INR n)
-      with (wL n (h ++ [v]) / INR n) by (rewrite HL; field; exact Hn0).
-    specialize (Hout _ Hev).
-    destruct (length (tl (lastn n h) ++ [v]) <? n)%nat.
-    + eexists; split; [reflexivity|].
-      repeat split; cbn [rsi_q rsi_oldref rsi_lastval rsi_gain rsi_loss rsi_out]; try assumption.
-      * rewrite HS. reflexivity.
-      * rewrite last_snoc. reflexivity.
-    + rewrite rsi_out_block by assumption. cbn [bind].
-      eexists; split; [reflexivity|].
-      repeat split; cbn [rsi_q rsi_oldref rsi_lastval rsi_gain rsi_loss rsi_out]; try assumption.
-      * rewrite HS. reflexivity.
-      * rewrite last_snoc. reflexivity.
-  - (* warm-up: nothing to evict *)
-    assert (Elen : (length h < n)%nat) by lia.
-    destruct (Nat.leb_spec n (length h)) as [|_]; [lia|].
-    cbn [bind].
-    rewrite push_branch by exact Hn0. cbn [bind].
-    rewrite Hg, Hl. cbn [ssub sofnat ROps].
-    replace (wG n h / INR n + gof (v - last h v) / INR n)
-      with (wG n (h ++ [v]) / INR n) by (rewrite HG; field; exact Hn0).
-    replace (wL n h / INR n + lof (v - last h v) / INR n)
-      with (wL n (h ++ [v]) / INR n) by (rewrite HL; field; exact Hn0).
-    specialize (Hout _ Hev).
-    assert (Hor' : hd v (lastn (S n) h) = hd 0 (lastn (S n) (h ++ [v]))).
-    { rewrite HS. rewrite (lastn_all (S n) h) by lia. rewrite (lastn_all n h) by lia.
-      destruct h; reflexivity. }
-    destruct (length (lastn n h ++ [v]) <? n)%nat.
-    + eexists; split; [reflexivity|].
-      repeat split; cbn [rsi_q rsi_oldref rsi_lastval rsi_gain rsi_loss rsi_out]; try assumption.
-      rewrite last_snoc. reflexivity.
-    + rewrite rsi_out_block by assumption. cbn [bind].
-      eexists; split; [reflexivity|].
-      repeat split; cbn [rsi_q rsi_oldref rsi_lastval rsi_gain rsi_loss rsi_out]; try assumption.
-      rewrite last_snoc. reflexivity.
+  destruct (Nat.ltb_spec (Nat.min n (length h + 1)) n) as [H|H].
+  - eexists; split; [reflexivity|].
+    repeat split; cbn [rsi_q rsi_oldref rsi_lastval rsi_gain rsi_loss rsi_out].
+    + rewrite last_snoc. reflexivity.
+    + rewrite app_length in *. cbn [length] in *. lia.
+    + rewrite app_length in *. cbn [length] in *. lia.
+    + rewrite Ho. unfold spec_rsi. rewrite app_length. cbn [length].
+      destruct (Nat.ltb_spec (length h) n); destruct (Nat.ltb_spec (length h + 1) n); try lia; reflexivity.
+  - cbn [sofnat s0 ROps]. rewrite rsi_sums_window by exact Hn. cbn [bind].
+    rewrite rsi_out_block by assumption. cbn [bind].
+    eexists; split; [reflexivity|].
+    repeat split; cbn [rsi_q rsi_oldref rsi_lastval rsi_gain rsi_loss rsi_out].
+    + rewrite last_snoc. reflexivity.
+    + unfold spec_rsi, rsi_value. rewrite app_length. cbn [length].
+      destruct (Nat.ltb_spec (length h + 1) n); [lia | reflexivity].
 Qed.
 
 Definition rsi_init : @rsi_st R :=
@@ -289,13 +268,12 @@ Definition rsi_init : @rsi_st R :=
 Lemma rsi_run n vs : (1 <= n)%nat -> exists s, crun (@rsi_core R ROps n) vs = Ok s /\ rsi_inv n vs s.
 Proof.
   intros Hn.
-  assert (Hn0 : INR n <> 0) by (apply INR_pos_neq; lia).
   apply (@crun_inv R (@rsi_core R ROps n) (fun _ => True) (rsi_inv n) rsi_init).
   - reflexivity.
-  - unfold rsi_inv, rsi_init, win_gain, win_loss, spec_rsi. cbn [rsi_q rsi_gain rsi_loss rsi_out rsi_oldref rsi_lastval].
-    rewrite !lastn_nil. cbn [changes length].
+  - unfold rsi_inv, rsi_init, spec_rsi. cbn [rsi_q rsi_gain rsi_loss rsi_out rsi_oldref rsi_lastval].
+    rewrite !lastn_nil. cbn [length].
     destruct (Nat.ltb_spec 0 n); [|lia].
-    rewrite lastn_nil. cbn. repeat split; try congruence; unfold Rdiv; lra.
+    repeat split; try congruence; lia.
   - intros h s v _ _ Hi. apply rsi_step_inv; assumption.
   - apply Forall_forall; trivial.
 Qed.
@@ -304,7 +282,7 @@ Qed.
 Theorem rsi_closed_form n vs : (1 <= n)%nat ->
   cout (@rsi_core R ROps n) vs = Ok (@spec_rsi R ROps n vs).
 Proof.
-  intros Hn. destruct (rsi_run n vs Hn) as (s & Hr & (_ & _ & _ & _ & Ho)).
+  intros Hn. destruct (rsi_run n vs Hn) as (s & Hr & (_ & _ & _ & Ho)).
   unfold cout. rewrite Hr. cbn [bind clast rsi_core]. rewrite Ho. reflexivity.
 Qed.
 (** * MyRSI: invariant and closed form *)
@@ -326,30 +304,26 @@ Proof.
   apply sdivd_R. exact E.
 Qed.
 
-Lemma my_evict_branch {A} (cu cd old oldest : R) (Y : A) :
-  (if sgtb old oldest then Ok (ssub cu (ssub old oldest), cd, old, Y)
-   else Ok (cu, ssub cd (ssub oldest old), old, Y))
-  = Ok (cu - gof (old - oldest), cd - lof (old - oldest), old, Y).
+(** 'closes up' / 'closes down', recomputed from the window on every update *)
+Lemma myrsi_sums_acc q : forall prev cu cd,
+  @myrsi_sums R ROps q prev cu cd = (cu + @gains R ROps (cf prev q), cd + @losses R ROps (cf prev q)).
 Proof.
-  unfold sgtb. cbn [sltb ssub ROps].
-  destruct (gl_cases (old - oldest)) as [(H & -> & ->)|(H & -> & ->)];
-    destruct (Rltb oldest old) eqn:E;
-    try (apply Rltb_true in E); try (apply Rltb_false in E); try lra.
-  - replace (cd - 0) with cd by lra. reflexivity.
-  - replace (cu - 0) with cu by lra. replace (cd - - (old - oldest)) with (cd - (oldest - old)) by lra.
-    reflexivity.
+  induction q as [|v r IH]; intros prev cu cd.
+  - cbn [myrsi_sums changes_from]. unfold gains, losses. cbn [map]. unfold ssum. cbn [fold_left s0 ROps].
+    f_equal; lra.
+  - cbn [myrsi_sums changes_from]. unfold gains, losses. rewrite !smap_cons.
+    unfold sgtb. cbn [sltb ssub sadd ROps].
+    destruct (gl_cases (v - prev)) as [(H & -> & ->)|(H & -> & ->)];
+      destruct (Rltb prev v) eqn:E;
+      try (apply Rltb_true in E); try (apply Rltb_false in E); try lra;
+      rewrite IH; unfold gains, losses; f_equal; lra.
 Qed.
-Lemma my_push_branch (cu cd v lv : R) :
-  (if sgtb v lv then (ssub (sadd cu v) lv, cd) else (cu, ssub (sadd cd lv) v))
-  = (cu + gof (v - lv), cd + lof (v - lv)).
+Lemma myrsi_sums_window n h :
+  @myrsi_sums R ROps (lastn n h) (hd 0 (lastn (S n) h)) 0 0 = (wG n h, wL n h).
 Proof.
-  unfold sgtb. cbn [sltb ssub sadd ROps].
-  destruct (gl_cases (v - lv)) as [(H & -> & ->)|(H & -> & ->)];
-    destruct (Rltb lv v) eqn:E;
-    try (apply Rltb_true in E); try (apply Rltb_false in E); try lra.
-  - f_equal; lra.
-  - f_equal; lra.
+  rewrite myrsi_sums_acc, <- win_changes. unfold win_gain, win_loss. f_equal; lra.
 Qed.
+
 Lemma my_out_block n h prev :
   (if sneb (sadd (wG n h) (wL n h)) s0 then sdiv (ssub (wG n h) (wL n h)) (sadd (wG n h) (wL n h))
    else Ok prev) = Ok (mupd n h prev).
@@ -367,47 +341,16 @@ Definition my_inv (n : nat) (h : list R) (s : @myrsi_st R) : Prop :=
 Lemma my_step_inv n h s v : (1 <= n)%nat -> my_inv n h s ->
   exists s', myrsi_step n s v = Ok s' /\ my_inv n (h ++ [v]) s'.
 Proof.
-  intros Hn (Hq & Href & Hg & Hl & Ho).
+  intros Hn (Hq & Href & _ & _ & Ho).
   unfold myrsi_step.
-  assert (Heff : match my_q s with [] => (v, v) | _ :: _ => (my_oldest s, my_lastval s) end
-                 = (hd v (lastn (S n) h), last h v)).
-  { rewrite Hq. destruct h as [|x r].
-    - rewrite !lastn_nil. reflexivity.
-    - assert (Hne : x :: r <> []) by discriminate. destruct (Href Hne) as [-> ->].
-      pose proof (lastn_nonnil n (x :: r) Hn Hne) as Hw.
-      destruct (lastn n (x :: r)); [congruence|].
-      f_equal; [apply hd_default, lastn_nonnil; [lia | exact Hne] | apply last_default; exact Hne]. }
-  rewrite Heff. cbv beta iota. clear Heff.
-  pose proof (evict_push_lastn n h v Hn) as Hev.
-  pose proof (wG_step n h v Hn) as HG. pose proof (wL_step n h v Hn) as HL.
-  pose proof (lastn_S_snoc n h v) as HS.
-  rewrite Hq, lastn_length in *.
-  destruct (Nat.leb_spec n (Nat.min n (length h))) as [E|E].
-  - assert (Elen : (n <= length h)%nat) by lia.
-    destruct (Nat.leb_spec n (length h)) as [_|]; [|lia].
-    assert (Hne : h <> []) by (destruct h; cbn in Elen; [lia | discriminate]).
-    rewrite (hd_default (lastn (S n) h) v 0) by (apply lastn_nonnil; [lia | exact Hne]).
-    destruct (lastn_hd_tl n h Elen Hn) as [old Hold]. rewrite Hold in *.
-    cbn [pop_front bind tl hd] in *.
-    rewrite my_evict_branch. cbn [bind].
-    rewrite my_push_branch. rewrite Hg, Hl, <- HG, <- HL.
-    rewrite my_out_block. cbn [bind].
-    eexists; split; [reflexivity|].
-    repeat split; cbn [my_q my_oldest my_lastval my_cu my_cd my_out]; try assumption.
-    + rewrite HS. reflexivity.
-    + rewrite last_snoc. reflexivity.
-    + rewrite mval_snoc, Ho. reflexivity.
-  - assert (Elen : (length h < n)%nat) by lia.
-    destruct (Nat.leb_spec n (length h)) as [|_]; [lia|].
-    cbn [bind].
-    rewrite my_push_branch. rewrite Hg, Hl, <- HG, <- HL.
-    rewrite my_out_block. cbn [bind].
-    eexists; split; [reflexivity|].
-    repeat split; cbn [my_q my_oldest my_lastval my_cu my_cd my_out]; try assumption.
-    + rewrite HS. rewrite (lastn_all (S n) h) by lia. rewrite (lastn_all n h) by lia.
-      destruct h; reflexivity.
-    + rewrite last_snoc. reflexivity.
-    + rewrite mval_snoc, Ho. reflexivity.
+  destruct (window_bookkeeping n h v (my_q s) (my_oldest s) 0 Hn Hq (fun H => proj1 (Href H)))
+    as (q0 & -> & Hq0).
+  cbn [bind]. rewrite Hq0. cbn [s0 ROps]. rewrite myrsi_sums_window.
+  rewrite my_out_block. cbn [bind].
+  eexists; split; [reflexivity|].
+  repeat split; cbn [my_q my_oldest my_lastval my_cu my_cd my_out].
+  - rewrite last_snoc. reflexivity.
+  - rewrite mval_snoc, Ho. reflexivity.
 Qed.
 
 Definition my_init : @myrsi_st R :=
